@@ -2,11 +2,14 @@ import ModVerif.Drv.MainLoop
 import ModVerif.Drv.Zip
 import ModVerif.Drv.Dirhash
 import ModVerif.Drv.GenZip
+import ModVerif.Drv.GenZipIO
 import ModVerif.Drv.GenModule
 import ModVerif.Drv.GenDirhash
 open ModVerif.Drv
 
 def gzip : Handler := fun op args =>
   (GenZip.handle op args) <|> (GenZip.handleCf Zip.parseFiles Zip.realEnv.cfp GenModule.equalFoldI op args)
+    <|> (GenZipIO.handle Zip.realEnv.cfp GenModule.equalFoldI ModVerif.Semver.canonicalVersion
+          (fun p v => match ModVerif.Module.check p v with | .ok _ => true | .error _ => false) op args)
 
 def main : IO Unit := runMain [("zip", Zip.handle), ("dirhash", Dirhash.handle), ("gzip", gzip), ("gdirhash", GenDirhash.handle)]
